@@ -2179,6 +2179,40 @@ func (c *Ctx) rerootOutgroupDetails(fi *FuncInfo) {
 	if nObj == nil || eObj == nil {
 		return
 	}
+	// (0) the node found by the LCA search stays what it is: the outgroup hangs below that node, and
+	// which end of the separating branch becomes the root is decided by comparing an end with it
+	{
+		var re ast.Node
+		ast.Inspect(fi.Decl.Body, func(n ast.Node) bool {
+			if as, ok := n.(*ast.AssignStmt); ok && as.Tok == token.ASSIGN {
+				for _, l := range as.Lhs {
+					if identObj(info, l) == nObj && re == nil {
+						if call, isCall := unparen(as.Rhs[0]).(*ast.CallExpr); !(isCall && isRepoFunc(calleeOf(info, call), "tree", "Tree", "LeastCommonAncestorUnrooted")) {
+							re = as
+						}
+					}
+				}
+			}
+			return true
+		})
+		compared := false
+		ast.Inspect(fi.Decl.Body, func(n ast.Node) bool {
+			if be, ok := n.(*ast.BinaryExpr); ok && (be.Op == token.EQL || be.Op == token.NEQ) {
+				if (identObj(info, be.X) == nObj && isNodePtr(info.TypeOf(be.Y))) || (identObj(info, be.Y) == nObj && isNodePtr(info.TypeOf(be.X))) {
+					compared = true
+				}
+			}
+			return true
+		})
+		switch {
+		case re != nil:
+			c.Violation("GF", name+"/lca-kept", re.Pos(), fmt.Sprintf("`%s` re-assigns the node the LCA search returned: from here on the subtree removed (or kept) is the one below another node, whichever way the separating branch happens to point", c.src(re))).Clause = "or the outgroup is absent with everything else intact when its removal is requested"
+		case !compared:
+			c.Violation("GF", name+"/lca-kept", fi.Decl.Pos(), "no end of the separating branch is compared with the node the LCA search returned: which end becomes the root depends on the branch's orientation, which depends on where the tree hung before").Clause = "or the outgroup is absent with everything else intact when its removal is requested"
+		default:
+			c.OK("GF", name+"/lca-kept", fi.Decl.Pos(), "the LCA node is never re-assigned and the root is chosen by comparing an end of the separating branch with it")
+		}
+	}
 	// (1) the search
 	walkStack(fi.Decl.Body, func(n ast.Node, stack []ast.Node) bool {
 		outer, ok := n.(*ast.RangeStmt)
